@@ -255,5 +255,18 @@ Export == ~Finished /\ Len(hist) > NSetup /\ (Mode = "rdf" => RdfComplete) /\ \E
 Next == Build \/ Export
 Spec == Init /\ [][Next]_vars
 
+(* (A) for C01/C10 on the MODEL: what the transcribed PROV-JSON writer emits for the state, *)
+(* read as the PROV-JSON submission says, is the content of the document -- except where a    *)
+(* bundle shadows a binding of its document (known finding KF-C03-shadow)                     *)
+ModelSrc(h) ==
+  LET asLogged(c) == [i \in 1..Len(c.recs) |-> [ProjRec(c.recs[i]) EXCEPT !.attrs = SetToSeq(@)]] IN
+  [recs |-> asLogged(ms.con[h]), ns |-> ProjNs(ms.mgr[ms.con[h].mgr]),
+   bundles |-> [i \in 1..Len(ms.con[h].bundles) |->
+                  LET b == ms.con[ms.con[h].bundles[i]] IN
+                  [id |-> IF b.id.ok THEN Uri(b.id) ELSE NONE, recs |-> asLogged(b), ns |-> ProjNs(ms.mgr[b.mgr])]]]
+JsonDenotes ==
+  LET src == ModelSrc("d1")
+      rd == ReadAJ(EncAJ(ms, "d1"))
+  IN ReadBagEq(rd, src) \/ ShadowExplains(src, rd)
 IndexOK == \A h \in DOMAIN ms.con : ms.con[h].kind # "loose" => IndexCoherent(ms.con[h])
 =============================================================================
